@@ -317,7 +317,7 @@ pub fn run(tier: Tier) -> i32 {
                 bl.sort();
                 bl.dedup();
                 for (bi, &b) in bl.iter().enumerate() {
-                    let storages: Vec<usize> = if p <= 8 || tier.thorough() { vec![p, p + 1, p + 7, 4096, 70000, 65536, 65536 + p.saturating_sub(1), 131072] } else { vec![[p, p + 1, p + 7, 4096, p, p + 1, p + 7, 4096, p, p + 1, 65536, 65536 + p.saturating_sub(1)][(p + bi + ri) % 12]] };
+                    let storages: Vec<usize> = if p <= 8 || (tier.thorough() && (p + bi + ri) % 4 == 0) { vec![p, p + 1, p + 7, 4096, 70000, 65536, 65536 + p.saturating_sub(1), 131072] } else if tier.thorough() { vec![p, p + 1, p + 7, 4096, 70000] } else { vec![[p, p + 1, p + 7, 4096, p, p + 1, p + 7, 4096, p, p + 1, 65536, 65536 + p.saturating_sub(1)][(p + bi + ri) % 12]] };
                     for st in storages {
                         let pat = ((p + bi + ri) % 4) as u8;
                         let content = pdu(p, pat);
